@@ -17,6 +17,11 @@ import (
 
 const acctClauses = 5
 
+// findingTimeoutFence (repaired in 913c225): TIMEOUT t NEARBY|WITHIN|INTERSECTS ...
+// FENCE WHEREEVAL ... whose deadline fires answered -ERR timeout and kept the
+// filter interpreters for ever.
+const findingTimeoutFence = "timeout-fence-whereeval-leaks-interpreters"
+
 func acctFilter(tag string) []string {
 	var out []string
 	for i := 0; i < acctClauses; i++ {
@@ -80,6 +85,8 @@ func runPoolAccounting(t testing.TB, c *ev.Collector, n int) {
 		return true
 	}
 	hookEP := []string{"http://127.0.0.1:1/c18acct"}
+	filterSha := ctl.MustDo("SCRIPT", "LOAD", "return ARGV[1] ~= nil and FIELDS ~= nil").Str
+	scriptSha := ctl.MustDo("SCRIPT", "LOAD", "local x = 0 for i = 1, 20000 do x = x + 1 end return tile38.call('scan','fleet','whereeval','return true',0,'count')").Str
 	type pathT struct {
 		name string
 		n    int
@@ -145,6 +152,77 @@ func runPoolAccounting(t testing.TB, c *ev.Collector, n int) {
 			}
 			return !strings.Contains(v.String(), "no interpreters available")
 		}},
+		// TIMEOUT around everything that takes interpreters. A FENCE search hands its
+		// filters (and their interpreters) back as the going-live value: when the
+		// deadline fires, they must be closed (finding timeout-fence-whereeval-leaks-interpreters)
+		{"timeout-fence-search", n + n/2, func(i int) bool {
+			kinds := [][]string{
+				{"NEARBY", "POINT", "5", "5", "100000"},
+				{"WITHIN", "BOUNDS", "0", "0", "10", "10"},
+				{"INTERSECTS", "BOUNDS", "0", "0", "10", "10"},
+			}
+			k := kinds[i%3]
+			tmo := []string{"0", "0.000001", "0.0001", "10"}[(i/3)%4]
+			var filt []string
+			if (i/12)%2 == 0 {
+				filt = acctFilter("t")
+			} else {
+				for j := 0; j < acctClauses; j++ {
+					filt = append(filt, "WHEREEVALSHA", filterSha, "1", fmt.Sprintf("t-%d", j))
+				}
+			}
+			cmd := []string{"TIMEOUT", tmo, k[0], "fleet"}
+			if (i/24)%2 == 0 { // FENCE before or after the filters
+				cmd = append(append(append(cmd, "FENCE"), filt...), k[1:]...)
+			} else {
+				cmd = append(append(append(cmd, filt...), "FENCE"), k[1:]...)
+			}
+			// own connection: with the generous timeout the fence goes live
+			lc, err := srv.Dial()
+			if err != nil {
+				return true
+			}
+			v, err := lc.Do(cmd...)
+			lc.Close()
+			if err != nil {
+				return true
+			}
+			if !(v.Equal(t38.Simple("OK")) || (v.IsErr() && strings.Contains(v.Str, "timeout"))) {
+				if strings.Contains(v.Str, "no interpreters available") {
+					return false
+				}
+				c.Violation("poolacct:command-failed", fmt.Sprintf("timeout-fence-search: %s answered %v", t38.CmdString(cmd), v), map[string]any{"sub": "poolacct"})
+			}
+			return true
+		}},
+		{"timeout-plain-search", n, func(i int) bool {
+			kinds := [][]string{
+				{"SCAN"}, {"NEARBY", "POINT", "5", "5", "100000"}, {"WITHIN", "BOUNDS", "0", "0", "10", "10"},
+				{"INTERSECTS", "BOUNDS", "0", "0", "10", "10"}, {"SEARCH"},
+			}
+			k := kinds[i%5]
+			tmo := []string{"0", "0.000001", "10"}[(i/5)%3]
+			cmd := append([]string{"TIMEOUT", tmo, k[0], "fleet"}, acctFilter("s")...)
+			cmd = append(append(cmd, "COUNT"), k[1:]...)
+			v, err := ctl.Do(cmd...)
+			return err != nil || !strings.Contains(v.String(), "no interpreters available")
+		}},
+		{"timeout-scripts", n, func(i int) bool {
+			modes := []string{"EVAL", "EVALRO", "EVALNA", "EVALSHA", "EVALROSHA", "EVALNASHA"}
+			tmo := []string{"0", "0.000001", "0.002", "10"}[(i/6)%4]
+			first := "local x = 0 for i = 1, 20000 do x = x + 1 end return tile38.call('scan','fleet','whereeval','return true',0,'count')"
+			if i%6 >= 3 {
+				first = scriptSha
+			}
+			var v t38.Value
+			var err error
+			if i%7 == 6 {
+				v, err = ctl.Do("TIMEOUT", tmo, "SCRIPT", "LOAD", fmt.Sprintf("return %d", i))
+			} else {
+				v, err = ctl.Do("TIMEOUT", tmo, modes[i%6], first, "0")
+			}
+			return err != nil || !strings.Contains(v.String(), "no interpreters available")
+		}},
 		{"setchan-expires", n / 8, func(i int) bool {
 			cmd := append([]string{"SETCHAN", fmt.Sprintf("ex%d", i), "EX", "0.05", "WITHIN", "fleet"}, acctFilter("e")...)
 			for j := 0; j < 7; j++ { // 40 filters per channel: fewer channels have to expire
@@ -184,6 +262,9 @@ func runPoolAccounting(t testing.TB, c *ev.Collector, n int) {
 			key := "lua-pool-interpreter-shared:" + p.name
 			if strings.Contains(bad, "no interpreters available") || exhausted {
 				key = "lua-pool-leak:" + p.name
+				if p.name == "timeout-fence-search" {
+					key = findingTimeoutFence
+				}
 			}
 			c.Violation(key, fmt.Sprintf("after %d x %s (each definition takes %d WHEREEVAL interpreters; the pool holds at most 1000): %s", p.n, p.name, acctClauses, bad), map[string]any{"sub": "poolacct", "path": p.name})
 			return // the pool is unusable from here on
@@ -195,6 +276,6 @@ func runPoolAccounting(t testing.TB, c *ev.Collector, n int) {
 func TestC18_PoolAccounting(t *testing.T) {
 	c := ev.New(prop, "poolacct", "exploration")
 	t.Cleanup(c.Flush)
-	c.Rule("pool accounting for fences with WHEREEVAL filters (5 clauses = 5 interpreters per definition, the pool refuses to exceed 1000): 210 (thorough 420) cycles each of SETCHAN+DELCHAN, SETCHAN replaced by a different definition, SETCHAN re-defined unchanged, SETCHAN+PDELCHAN, SETCHAN with a bad/missing FENCE after the valid filters, EVAL calling tile38.pcall('within',...,'whereeval',...,'fence',...); as many live WITHIN ... FENCE connections opened and closed; half as many SETCHAN+FLUSHDB; a quarter SETHOOK+DELHOOK; 26 channels with 40 filters each that expire after 50 ms. After every path: a search with 12 WHEREEVAL clauses that each compare ARGV[1] with their own argument must count 1 (an interpreter handed out twice would show the later clause's ARGV), and EVAL/EVALRO/EVALNA must work; 'no interpreters available' that persists for 5 s is a leak. Each path is a non-trivial case.")
+	c.Rule("pool accounting for fences with WHEREEVAL filters (5 clauses = 5 interpreters per definition, the pool refuses to exceed 1000): 210 (thorough 420) cycles each of SETCHAN+DELCHAN, SETCHAN replaced by a different definition, SETCHAN re-defined unchanged, SETCHAN+PDELCHAN, SETCHAN with a bad/missing FENCE after the valid filters, EVAL calling tile38.pcall('within',...,'whereeval',...,'fence',...); as many live WITHIN ... FENCE connections opened and closed; half as many SETCHAN+FLUSHDB; a quarter SETHOOK+DELHOOK; 26 channels with 40 filters each that expire after 50 ms; TIMEOUT (0, 1 us, 100 us, 10 s) around NEARBY/WITHIN/INTERSECTS ... FENCE with 5 WHEREEVAL or WHEREEVALSHA filters, FENCE before or after them, each on its own connection (315 calls; regression probe of timeout-fence-whereeval-leaks-interpreters); TIMEOUT around SCAN/NEARBY/WITHIN/INTERSECTS/SEARCH with 5 filters and COUNT; TIMEOUT (0..10 s) around all six EVAL variants of a script that itself searches with WHEREEVAL, and around SCRIPT LOAD. After every path: a search with 12 WHEREEVAL clauses that each compare ARGV[1] with their own argument must count 1 (an interpreter handed out twice would show the later clause's ARGV), and EVAL/EVALRO/EVALNA must work; 'no interpreters available' that persists for 5 s is a leak. Each path is a non-trivial case.")
 	runPoolAccounting(t, c, ev.Pick(210, 420))
 }
